@@ -80,6 +80,7 @@ type Ctx struct {
 	reads    []readEvent
 	prefer   []*Term
 	splits   []*Term // boolean terms worth a case split (append in place / reallocated)
+	ifSplits []*Term // branch conditions of the verified function (case split candidates when they occur in a goal)
 	oldBinds map[int]Val
 	sliceTerms map[*Term]bool
 }
